@@ -401,6 +401,37 @@ theorem lookup_setAttr (k : PStr) (v : AttrVal) : ∀ (l : List (PStr × AttrVal
     · simp [setAttr, lookupAttr, hk]
     · simp [setAttr, lookupAttr, hk, ih]
 
+theorem lookup_setAttr_ne (k k' : PStr) (v : AttrVal) (hk : k ≠ k') :
+    ∀ (l : List (PStr × AttrVal)), lookupAttr k (setAttr k' v l) = lookupAttr k l := by
+  intro l
+  induction l with
+  | nil => simp [setAttr, lookupAttr, Ne.symm hk]
+  | cons a rest ih =>
+    obtain ⟨k2, v2⟩ := a
+    by_cases h2 : k2 = k'
+    · subst h2
+      simp [setAttr, lookupAttr, Ne.symm hk]
+    · by_cases h3 : k2 = k
+      · subst h3
+        simp [setAttr, lookupAttr, hk]
+      · simp [setAttr, lookupAttr, h2, h3, ih]
+
+theorem lookup_subCharsetStep (k : PStr) (hk : k ≠ ofS "charset") (l : List (PStr × AttrVal)) :
+    lookupAttr k (subCharsetStep l) = lookupAttr k l := by
+  unfold subCharsetStep
+  split
+  · exact lookup_setAttr_ne k _ _ hk l
+  · rfl
+
+theorem lookup_subContentStep (k : PStr) (hk : k ≠ ofS "content") (l : List (PStr × AttrVal)) :
+    lookupAttr k (subContentStep l) = lookupAttr k l := by
+  unfold subContentStep
+  split
+  · split
+    · exact lookup_setAttr_ne k _ _ hk l
+    · rfl
+  · rfl
+
 theorem subGo_drop (repl : PStr → PStr) : ∀ (l : PStr) (b : Bool), subGo repl l.length b l = [] := by
   intro l
   induction l with
